@@ -8,20 +8,6 @@ Import ListNotations.
 Open Scope N_scope.
 
 (* ---------- splitting ---------- *)
-Lemma split_once_some c l : forall a b, split_once c l = Some (a, b) -> l = a ++ c :: b /\ ~ In c a.
-Proof. induction l as [|x l IH]; intros a b; cbn [split_once]; [discriminate|]. destruct (x =? c) eqn:E.
-  - intros H. injection H as <- <-. apply N.eqb_eq in E. subst. split; [reflexivity|intros []].
-  - destruct (split_once c l) as [[a' b']|]; [|discriminate]. intros H. injection H as <- <-. destruct (IH a' b' eq_refl) as [-> Hn].
-    split; [reflexivity|]. intros [H|H]; [apply N.eqb_neq in E; congruence|exact (Hn H)]. Qed.
-Lemma split_once_none c l : split_once c l = None -> ~ In c l.
-Proof. induction l as [|x l IH]; cbn [split_once]; [intros _ []|]. destruct (x =? c) eqn:E; [discriminate|]. destruct (split_once c l) as [[a b]|]; [discriminate|].
-  intros _ [H|H]; [apply N.eqb_neq in E; congruence|exact (IH eq_refl H)]. Qed.
-Lemma split_once_app c a b : ~ In c a -> split_once c (a ++ c :: b) = Some (a, b).
-Proof. induction a as [|x a IH]; intros H; cbn [app split_once]; [rewrite N.eqb_refl; reflexivity|].
-  destruct (x =? c) eqn:E; [apply N.eqb_eq in E; subst; exfalso; apply H; left; reflexivity|]. rewrite IH; [reflexivity|intros Hc; apply H; right; exact Hc]. Qed.
-Lemma split_once_notin c l : ~ In c l -> split_once c l = None.
-Proof. induction l as [|x l IH]; intros H; cbn [split_once]; [reflexivity|]. destruct (x =? c) eqn:E; [apply N.eqb_eq in E; subst; exfalso; apply H; left; reflexivity|].
-  rewrite IH; [reflexivity|intros Hc; apply H; right; exact Hc]. Qed.
 Lemma before_c_split c l : before_c c l ++ skipn (length (before_c c l)) l = l /\ ~ In c (before_c c l)
   /\ (skipn (length (before_c c l)) l = [] \/ exists t, skipn (length (before_c c l)) l = c :: t).
 Proof. induction l as [|x l IH]; cbn [before_c]; [repeat split; [intros []|left; reflexivity]|]. destruct (x =? c) eqn:E.
@@ -260,3 +246,61 @@ Theorem split_join_sound u seg j : wf_url u -> did_url_join u seg = Ok j ->
   u_did j = u_did u /\ u_method j = u_method u /\ u_mid j = u_mid u
   /\ (no_pct (did_url_to_string j) = true -> wf_url j /\ did_url_split_parse (did_url_to_string j) = Ok j).
 Proof. intros W H. destruct (join_sound u seg j W H) as [A [B [C D]]]. split; [exact A|]. split; [exact B|]. split; [exact C|]. intros NP. destruct (D NP) as [Wj _]. split; [exact Wj|apply split_wf_reparses; exact Wj]. Qed.
+
+(* ---- DIDUrl::join never panics, for EVERY receiver and EVERY segment: the receiver's text is not re-parsed (its DID may end in a percent
+   triple), and the offsets parse_relative computes for the segment stay inside it even when the scanning loop overshoots at its end ---- *)
+Lemma skipn_cons_lt {A} n (l : list A) x r : skipn n l = x :: r -> (n < length l)%nat /\ length l = (n + 1 + length r)%nat.
+Proof.
+  intros H. assert (length (skipn n l) = S (length r)) as L by (rewrite H; reflexivity). rewrite skipn_length in L. lia.
+Qed.
+Lemma tp_rel_bounds d c : tp_rel_offsets d = Ok c ->
+  o_path c = O /\ (forall q, o_query c = Some q -> (q < length d)%nat)
+  /\ (forall f, o_frag c = Some f -> (f < length d)%nat /\ match o_query c with Some q => (q < f)%nat | None => True end).
+Proof.
+  unfold tp_rel_offsets. intros H.
+  destruct (match d with [] => Some O | c3 :: _ => if stop_path c3 then Some O else tp_loop stop_path char_path d end) as [n3|]; [|discriminate].
+  destruct (skipn n3 d) as [|c4 r4'] eqn:S4.
+  - inversion H; subst c; cbn. split; [reflexivity|]. split; intros ? X; discriminate.
+  - destruct (skipn_cons_lt _ _ _ _ S4) as [L3 Ld].
+    destruct (c4 =? 35) eqn:E35.
+    + cbn iota in H. rewrite E35 in H. cbn [negb] in H. destruct (tp_loop stop_none char_query r4'); [|discriminate].
+      inversion H; subst c; cbn. split; [reflexivity|]. split; [intros ? X; discriminate|]. intros f X. inversion X; subst f. split; [exact L3|exact I].
+    + destruct (c4 =? 63) eqn:E63; [|discriminate].
+      destruct (tp_loop stop_query char_query r4') as [n4|]; [|discriminate]. cbn iota in H.
+      destruct (skipn n4 r4') as [|c5 r5'] eqn:S5.
+      * inversion H; subst c; cbn. split; [reflexivity|]. split; [intros q X; inversion X; subst q; exact L3|intros ? X; discriminate].
+      * destruct (skipn_cons_lt _ _ _ _ S5) as [L4 _].
+        destruct (negb (c5 =? 35)); [discriminate|]. destruct (tp_loop stop_none char_query r5'); [|discriminate].
+        inversion H; subst c; cbn. split; [reflexivity|]. split; [intros q X; inversion X; subst q; exact L3|].
+        intros f X. inversion X; subst f. split; lia.
+Qed.
+Lemma tp_rel_offsets_total d : tp_rel_offsets d <> Panic.
+Proof.
+  unfold tp_rel_offsets. destruct (match d with [] => Some O | c3 :: _ => if stop_path c3 then Some O else tp_loop stop_path char_path d end) as [n3|]; [|discriminate].
+  destruct (skipn n3 d) as [|c4 r4']; [discriminate|]. destruct (c4 =? 35).
+  - cbn iota. destruct (negb (c4 =? 35)); [discriminate|]. destruct (tp_loop stop_none char_query r4'); discriminate.
+  - destruct (c4 =? 63); [|discriminate]. destruct (tp_loop stop_query char_query r4') as [n4|]; [|discriminate]. cbn iota.
+    destruct (skipn n4 r4') as [|c5 r5']; [discriminate|]. destruct (negb (c5 =? 35)); [discriminate|]. destruct (tp_loop stop_none char_query r5'); discriminate.
+Qed.
+Theorem join_total u seg : did_url_join u seg <> Panic.
+Proof.
+  unfold did_url_join. destruct seg as [|c0 seg']; [discriminate|]. destruct (negb _); [discriminate|].
+  set (d := c0 :: seg').
+  destruct (tp_rel_offsets d) as [rc|e|] eqn:R; cbn [obind]; [|discriminate|exfalso; exact (tp_rel_offsets_total _ R)].
+  destruct (tp_rel_bounds _ _ R) as [Op [Oq Of]].
+  assert (exists P, tp_path d rc = Ok P) as [P HP].
+  { unfold tp_path, slice_from. rewrite Op. destruct (o_query rc) as [q|] eqn:Eq.
+    - apply slice_in_range. specialize (Oq q eq_refl). lia.
+    - destruct (o_frag rc) as [f|] eqn:Ef; apply slice_in_range; [destruct (Of f eq_refl); lia|lia]. }
+  assert (exists Q, tp_query d rc = Ok Q) as [Q HQ].
+  { unfold tp_query, slice_from. destruct (o_query rc) as [q|] eqn:Eq; [|eauto]. specialize (Oq q eq_refl).
+    destruct (o_frag rc) as [f|] eqn:Ef.
+    - destruct (Of f eq_refl) as [Lf Lq]. destruct (slice_in_range d (q + 1) f) as [y Hy]; [lia|]. rewrite Hy. cbn [obind]. eauto.
+    - destruct (slice_in_range d (q + 1) (length d)) as [y Hy]; [lia|]. rewrite Hy. cbn [obind]. eauto. }
+  assert (exists F, tp_fragment d rc = Ok F) as [F HF].
+  { unfold tp_fragment, slice_from. destruct (o_frag rc) as [f|] eqn:Ef; [|eauto]. destruct (Of f eq_refl) as [Lf _].
+    destruct (slice_in_range d (f + 1) (length d)) as [y Hy]; [lia|]. rewrite Hy. cbn [obind]. eauto. }
+  rewrite HP, HQ, HF. cbn [obind]. cbv zeta.
+  apply obind_total; [apply set_path_total|]. intros up. apply obind_total; [apply set_query_total|]. intros uq. apply obind_total; [apply set_fragment_total|]. intros uf.
+  destruct (_ || _); discriminate.
+Qed.
